@@ -84,14 +84,16 @@ _B["VfRIB_q3"] = "pre-state 1 next-hop, 1 group, 1 stale held REPLACE (its key w
 _B["VfRIB_qx"] = "cross-instance references: a next-hop and a group in EACH of the two instances (the same group id may exist in both), 1 IPv4 entry in either instance with optional explicit group instance; one symbolic IPv4 ADD/REPLACE/DELETE (retargeting a reference between instances / groups)"
 _B["VfRIB_qo"] = "acknowledgement order: 1 next-hop, 2 held IPv4 entries (possibly the same key, different payloads) waiting for a group; one symbolic group ADD/REPLACE; every iteration order of the held-operation map (native replay repeated up to 40 times since Go randomises map order)"
 _B["VfRIB_qEnum"] = "enum-typed payload: pre-state 1 optional next-hop (encapsulate-/decapsulate-header any DEFINED number) + 1 optional group; one symbolic next-hop ADD/REPLACE/DELETE whose two header fields are ANY int32 (all 2^64 pairs, defined or not), any instance name, symbolic index"
-_RE = [("VfRIB_qEnum", _B["VfRIB_qEnum"])]
+_B["VfRIB_qPayload"] = "extended next-hop payload: pre-state 1 optional next-hop carrying one of 13 payload shapes with schema-valid content (address, MAC, interface / subinterface reference, IP-in-IP source+destination, pushed label stack of 1-3 labels, or all of them) + 1 optional group; one symbolic next-hop ADD/REPLACE/DELETE whose payload is any of the 13 shapes with ANY content (8 schema-invalid addresses, 6 invalid MACs, any 64-bit subinterface number and labels), any instance name, symbolic index: invalid content is malformed, valid content is payload and an ADD replaces the WHOLE payload"
+_B["VfRIB_qPayloadTop"] = "extended top-level payload: 1 next-hop, 1 group, 1 optional IPv4/IPv6/label entry with an optional decapsulate-header (any defined number) / popped label stack (1-2 labels); one symbolic ADD/REPLACE/DELETE of such an entry (any 64-bit popped labels; fixed optional fields)"
+_RE = [("VfRIB_qEnum", _B["VfRIB_qEnum"]), ("VfRIB_qPayload", _B["VfRIB_qPayload"]), ("VfRIB_qPayloadTop", _B["VfRIB_qPayloadTop"])]
 _B["VfRIB_big"] = "scale: a large pre-state of concrete shape built through the API (16 next-hops, 8 two-member groups sharing next-hops, 6 IPv4 (symbolic distinct prefixes) / 4 MPLS / 2 IPv6 entries over two instances incl. cross-instance references, 6 held groups + 3 held entries), then ONE fully symbolic operation that may hit any installed or held object"
 _RS = [("VfRIB_big", _B["VfRIB_big"])]
 _RQ = [(h, _B[h]) for h in ("VfRIB_q1", "VfRIB_q2", "VfRIB_qNoFwd", "VfRIB_qx", "VfRIB_qo")]
 _B["VfRIB_t1r"] = "as q1 plus a held operation (ADD or REPLACE) and optional payload fields everywhere (next-hop tag / pop-top-label, backup group, colour, metadata, weights); one symbolic operation with <=2 members"
 _B["VfRIB_t3e"] = "histories from the EMPTY two-instance RIB: THREE consecutive fully symbolic operations (next-hop / group of <=1 member / IPv4 entry; ADD/REPLACE/DELETE; any instance name)"
 _RT = [(h, _B[h]) for h in ("VfRIB_t1", "VfRIB_t1r", "VfRIB_t2", "VfRIB_tOrder")]
-_RIBNOTE = "Trusted: go/ssa, gosym, z3, the Go models of candidateRIB/MergeStructInto (validated natively by TestVfModelAgreement on the modelled fields), the reference RIB in harness/rib/vf_ref.go. Payload = key, group reference (+instance), entry metadata, group members/weights/backup/colour, next-hop network-instance; other payload fields are outside (C07)."
+_RIBNOTE = "Trusted: go/ssa, gosym, z3, the Go models of candidateRIB/MergeStructInto (validated natively by TestVfModelAgreement on the modelled fields), the reference RIB in harness/rib/vf_ref.go. Payload = key, group reference (+instance), entry metadata, decapsulate-header, popped label stack, group members/weights/backup/colour, next-hop network-instance / pop-top-label / encapsulation headers / address / MAC / interface reference / IP-in-IP / pushed label stack; encap-header lists, GRE, VNI, tunnel source address and enumerated labels in stacks are outside."
 CHECKS["C01"] = dict(runs=_rib(["C01:"], _RQ + _RE + _RS, _RT), assumptions=["pre-states are reference-closed states built by the canonical history (next-hops, groups, entries, held operations); one or two further symbolic operations"],
     level_text="Differential bounded symbolic execution of the real RIB (AddEntry/DeleteEntry and everything below) against a reference fold of the acknowledged operations: after every operation the real tables equal the fold, for every value of the symbolic keys/payloads/instance names.", level_note=_RIBNOTE)
 CHECKS["C02"] = dict(runs=_rib(["C02:"], _RQ + _RS, _RT), assumptions=["as C01"],
@@ -147,10 +149,16 @@ CHECKS["C07"] = dict(
                bounds="canonical pre-state (1 next-hop, 1 group, 1 IPv4/IPv6/MPLS entry, optional payload fields) in two instances; GetRIB of either instance with each of the 6 table filters; ALL compared with the union of the five per-table Gets; FromGetResponses over both instances compared with the reference"),
           dict(pkg="rib", harness="VfC07_getRIB_t", reach=["end", "pre-built", "all"], quick=dict(skip=True), opts=dict(only=["C07:"]),
                bounds="as getRIB_q with 2 next-hops, 2 top-level entries, a held operation (must not be reported), groups of <=2 members, slots in either instance"),
+          dict(pkg="rib", harness="VfC07_getRIB_p", reach=["end", "pre-built", "all"], opts=dict(only=["C07:"]),
+               bounds="extended payload: 1 next-hop with one of 13 payload shapes (address, MAC, interface / subinterface reference, IP-in-IP, pushed label stack of 1-3 labels, all of them; symbolic valid content), 1 group, 1 IPv4/IPv6 entry with a decapsulate-header or 1 label entry with a popped stack of 1-2 labels; GetRIB of either instance with each of the 6 filters; every field and the ORDER of the stacks compared"),
+          dict(pkg="rib", harness="VfC07_getHistory", reach=["end", "pre-built", "flushed", "deleted"], opts=dict(only=["C07:", "C08:"]),
+               bounds="reads interleaved with changes: program next-hop(address+MAC) / group / label entry(popped stack) / IPv4 entry(decapsulate-header), Get(ALL), then nothing / Flush / DELETE of everything, then re-program under symbolic keys (equal to the old ones or not) with payloads of a different kind (interface reference + pushed stack of 3, other stack, other header), Get(ALL), Get(NEXTHOP), Get(MPLS): every Get reflects the state at its moment"),
+          dict(pkg="rib", harness="VfC07_getRIB_p2", reach=["end", "pre-built", "all"], quick=dict(skip=True), opts=dict(only=["C07:"]),
+               bounds="as getRIB_p (label entries only), then one further symbolic ADD/REPLACE of a next-hop / label entry that may re-program an installed key with any other payload shape, then Get(ALL) of either instance"),
           dict(pkg="rib", harness="VfC07_getRIB_big", reach=["end", "pre-built", "all"], opts=dict(only=["C07:"]),
                bounds="scale: GetRIB of either instance with each of the 6 table filters on the large pre-state of VfRIB_big (held operations must not be reported)"),
           dict(pkg="server", harness="VfC07_doGet", reach=["end"], bounds="Server.Get on a scripted stream: instance selector (all / name incl. empty and unknown) x table filter (any enum number); small concrete RIB in two instances")],
-    assumptions=["PARTIAL: the reflection pipeline (protomap / ytypes / ygot) is replaced by models that carry key, group reference(+instance), metadata, members/weights/backup/colour, next-hop network-instance, pop-top-label, encapsulate-/decapsulate-header; the models are calibrated and compared with the real functions on random payloads before every run, and sample paths are replayed natively (a native failure of a C07 assertion is reported as a VIOLATION). Every other payload field (addresses, MAC, interface refs, label stacks, ...) is OUTSIDE this check"],
+    assumptions=["PARTIAL: the reflection pipeline (protomap / ytypes / ygot) is replaced by models that carry key, group reference(+instance), metadata, members/weights/backup/colour, next-hop network-instance, pop-top-label, encapsulate-/decapsulate-header (next-hops, IPv4/IPv6 entries), next-hop ip-address, mac-address, interface-ref (interface, subinterface), ip-in-ip (source, destination), pushed label stack, label-entry popped label stack (numeric labels); the models are calibrated and compared with the real functions on random payloads (incl. schema-invalid strings and out-of-range numbers) before every run, and sample paths are replayed natively (a native failure of a C07 assertion is reported as a VIOLATION). OUTSIDE this check: encap-header lists (UDPv6 / MPLS encapsulation headers), GRE, VNI, tunnel source address, enumerated (reserved-name) labels inside stacks"],
     level_text="Bounded symbolic execution of GetRIB / doGet / FromGetResponses from symbolic RIB contents: scope, filter, tagging, once-only and modelled-field payload equality are decided for every symbolic key/value.",
     level_note=_RIBNOTE)
 
@@ -243,12 +251,28 @@ CHECKS["C11"] = dict(
     level_text="Lock-set analysis on top of bounded symbolic execution: the schedule quantifier is discharged by checking, over all symbolic paths of each handler, that conflicting accesses of different roles share a mutex; confirmation by the Go race detector.",
     level_note="Trusted: go/ssa, gosym (access log, mutex model), z3, the Go race detector for confirmation.")
 
-NOT_APPLICABLE = {
-    "C19": "whole compliance-suite runs over in-memory gRPC against wrapped servers in every order: a whole-program execution through gRPC, testing and reflection; no bounded symbolic encoding within reach (DESIGN.md §8)",
-}
+_C19I = ["context", "go.uber.org/atomic"]
+CHECKS["C19"] = dict(
+    runs=[dict(pkg="compliance", harness="VfC19_each", reach=["end"], initpkg=_C19I, validate=3, watchdog_s=100, opts=dict(maxsleeps=4000, maxsteps=40000000),
+               bounds="every one of the 79 tests of compliance.TestSuite, alone, on a fresh conformant server (the real server.Server incl. its three Modify goroutines, the real client incl. sender/receiver goroutines, fluent, chk; joined by in-memory streams), with the suite's starting election id ANY value in [1, 2^62) and the VRF name ANY string other than the default / the 'nonexistent' name; shuffles (rand.Shuffle) are symbolic permutations; deterministic schedule"),
+          dict(pkg="compliance", harness="VfC19_pairs", reach=["end", "different-server-mode"], initpkg=_C19I, validate=2, watchdog_s=100, opts=dict(maxsleeps=8000, maxsteps=80000000),
+               bounds="every ORDERED PAIR of tests (79 x 79, pairs needing different server modes excluded) back to back on ONE long-lived server, same symbolic configuration: both verdicts as specified (order dependence between two tests; longer permutations are outside)"),
+          dict(pkg="compliance", harness="VfC19_faulty", reach=["end", "judged", "not-written-for-this-requirement"], initpkg=_C19I, validate=0, watchdog_s=100, opts=dict(maxsleeps=4000, maxsteps=40000000),
+               bounds="catalogue of 8 single-requirement faulty servers (the reference server behind a message filter: no FIB acks; DELETE of an absent entry fails; Get leaves out the last entry; Flush answers OK without flushing; election id reported with a wrong high word; repeated SessionParameters acknowledged; operations with a stale / unannounced election id programmed; Flush of one instance flushes all) x every test written for the broken requirement (by the suite's own Requires* flags and test documentation): the test must FAIL, for every symbolic configuration; timeouts of the client are modelled by virtual time")],
+    assumptions=["PARTIAL: decided are (a) every test alone and every ordered pair of tests on one server, for every starting election id in [1, 2^62) and every VRF name, (b) the 8-member fault catalogue; permutations of three and more tests, other faults, a default-instance name other than the server's constant, and the real gRPC transport / TLS / device wrapper are OUTSIDE",
+                 "client and server are joined by in-memory streams (channels) written in the harness: a Send after the handler returned yields io.EOF and Recv the handler's status, as gRPC does; Get runs the handler to completion before the client reads",
+                 "context.WithTimeout / WithCancel are modelled on the engine's virtual clock: time advances by time.Sleep and jumps to the next deadline only when no goroutine can make progress otherwise (the suite's one-minute timeouts are long relative to processing)",
+                 "one schedule per path (deterministic, switching at synchronisation points); scheduling is C10/C11/C14's subject",
+                 "a test that skips itself (FlushOfAllNIs: TODO + t.Skip) gives no verdict",
+                 "rib conversion models as in C01/C07 (next-hop addresses and label stacks are inside the model)"],
+    level_text="Bounded symbolic execution of whole compliance tests - fluent client, real client goroutines, real server handlers, real RIB, chk helpers - against the reference server and against a catalogue of wrapped faulty servers, with the suite configuration (starting election id, VRF name) and shuffles symbolic; the verdict of every test is an SMT-decided assertion.",
+    level_note="Trusted: go/ssa, gosym (scheduler, virtual clock, context / rand / sort / net.IP intercepts), z3, rib models (validated by TestVfModelAgreement), the in-memory connection and the fault filters in harness/compliance/vf_c19.go.",
+    design_ref="DESIGN.md §0.8 (C19)")
+
+NOT_APPLICABLE = {}
 
 FIX_COMMITS = []
 
 # checks whose harnesses execute the Go models of the reflection pipeline: the native model-agreement test is part of the check
-for _p in ("C01", "C02", "C03", "C04", "C06", "C07", "C08", "C09", "C10", "C11", "C12", "C15", "C16"):
+for _p in ("C01", "C02", "C03", "C04", "C06", "C07", "C08", "C09", "C10", "C11", "C12", "C15", "C16", "C19"):
     CHECKS[_p]["models"] = True
